@@ -124,7 +124,7 @@ def run(ctx):
         meta2.append(("snap", si, probe))
         fk = ks if ctx.thorough() else sorted(set(rng.sample(ks, min(len(ks), 8)) + ks[-4:]))
         for k in fk:
-            S = L + pre + ["fault arm", "fault fail %d %d" % (k, rng.choice([28, 5])), op, "fault log", "fault off", "lsr"] + reads + [op] + reads + ["errstr"]
+            S = L + pre + ["fault arm", "fault fail %d %d" % (k, rng.choice([28, 5])), op, "fault log", "fault off", "lsr"] + reads + [op] + reads + ["errstr", "lsr"]
             S.insert(len(L) + len(pre) + 3, "errstr")
             chunks2.append(S)
             meta2.append(("fail", si, k))
@@ -203,20 +203,34 @@ def run(ctx):
                 if after != new_reads:
                     problems.append("the call reports success after a failing %s but the data are not the new data" % call)
             else:
-                if after != old_reads:
-                    d = [i for i in range(4) if after[i] != old_reads[i]]
-                    problems.append("after the refused call field %s reads '%s', before '%s'" % (reads[d[0]].split()[1], after[d[0]][:80], old_reads[d[0]][:80]))
-                debris = [p for p in files if TEMPRE.search(p)]
-                if debris:
-                    problems.append("temporary file left behind: %s" % debris)
-                for p, v in files.items():
-                    if not TEMPRE.search(p) and old_files.get(p) != v:
-                        problems.append("data file %s changed by the failed call (%s -> %s)" % (p, old_files.get(p), v))
-                        break
-                if " e=0" not in retry:
-                    problems.append("the handle is not usable: retry answers %s" % retry)
-                elif final != new_reads:
-                    problems.append("after the retry the data are not the new data")
+                # an out-of-place write that gd_flush could not complete may stay pending, exactly as it was before the
+                # call: its temporary file is then still the open write side, the handle shows the written data, and the
+                # next call that needs the field completes it (nothing may remain after that)
+                pending = kind == "oopwrite" and after == new_reads and all(
+                    old_files.get(p_) == v_ for p_, v_ in files.items() if not TEMPRE.search(p_))
+                if pending:
+                    end_files = datafiles(out[b + 16]) if len(out) > b + 16 else {}
+                    if [p_ for p_ in end_files if TEMPRE.search(p_)]:
+                        problems.append("temporary file of the pending write still there at the end: %s" % sorted(end_files))
+                    if " e=0" not in retry:
+                        problems.append("the handle is not usable: retry answers %s" % retry)
+                    elif final != new_reads:
+                        problems.append("after the retry the data are not the new data")
+                else:
+                    if after != old_reads:
+                        d = [i for i in range(4) if after[i] != old_reads[i]]
+                        problems.append("after the refused call field %s reads '%s', before '%s'" % (reads[d[0]].split()[1], after[d[0]][:80], old_reads[d[0]][:80]))
+                    debris = [p for p in files if TEMPRE.search(p)]
+                    if debris:
+                        problems.append("temporary file left behind: %s" % debris)
+                    for p, v in files.items():
+                        if not TEMPRE.search(p) and old_files.get(p) != v:
+                            problems.append("data file %s changed by the failed call (%s -> %s)" % (p, old_files.get(p), v))
+                            break
+                    if " e=0" not in retry:
+                        problems.append("the handle is not usable: retry answers %s" % retry)
+                    elif final != new_reads:
+                        problems.append("after the retry the data are not the new data")
             if problems:
                 cls = "failed-call"
                 if errstr.startswith("errstr Error closing") and " e=-27" not in ans:
